@@ -1,2 +1,1 @@
 // ---- calls unit: C16 — calling a non-callable raises; unbounded recursion is a catchable runtime error ----
-pub open spec fn is_kind(v: Value, k: ObjectKind) -> bool { v_is_obj(v) && o_kind(v_obj(v)) == k }
